@@ -130,6 +130,10 @@ def iter_is_finite(func, env, it, depth=0):
             return True, f.id
         if isinstance(f, ast.Attribute) and f.attr in FINITE_METHODS:
             return True, "." + f.attr + "()"
+        if ast.unparse(f) in ("itertools.product", "itertools.chain", "itertools.combinations", "itertools.permutations", "itertools.zip_longest",
+                              "itertools.islice", "itertools.accumulate", "itertools.starmap", "itertools.combinations_with_replacement", "product", "chain"):
+            res = [iter_is_finite(func, env, a, depth + 1) for a in it.args]
+            return all(r[0] for r in res), "%s of finite iterables" % ast.unparse(f)
         c = env.resolve_callee(it)
         if isinstance(c, FuncInfo):
             t = env.type_of(it).strip_opt()
